@@ -293,6 +293,10 @@ pub struct World<A: App> {
     pub probe_pre: bool,
     /// Do not forward Drained to the endpoint and keep drained connections live (C20 part 5)
     pub hold_drained: bool,
+    /// Keep servicing the timers of connections that have drained and were forgotten by their
+    /// endpoint, as a driver that does not drop them at once would; anything they still emit is
+    /// recorded in `post_drain_output` (and a further Drained in `drained_events` / `Rec::Drained`)
+    pub linger_dead: bool,
     /// Consecutive timer firings at one instant for one connection: (t, node, ch, count)
     pub timer_streak: (Duration, usize, usize, u32),
     pub max_timer_streak: u32,
@@ -337,6 +341,7 @@ impl<A: App> World<A> {
             deaf: Vec::new(),
             probe_pre: false,
             hold_drained: false,
+            linger_dead: false,
             timer_streak: (Duration::ZERO, 0, 0, 0),
             max_timer_streak: 0,
             post_drain_output: Vec::new(),
@@ -783,6 +788,16 @@ impl<A: App> World<A> {
                     }
                 }
             }
+            if self.linger_dead {
+                for (i, (_, s)) in n.dead.iter().enumerate() {
+                    if let Some(to) = s.conn.poll_timeout() {
+                        let d = to.saturating_duration_since(self.base);
+                        if best.as_ref().map_or(true, |(bt, _)| d < *bt) {
+                            best = Some((d, NextEv::DeadTimer(ni, i)));
+                        }
+                    }
+                }
+            }
         }
         best
     }
@@ -813,6 +828,39 @@ impl<A: App> World<A> {
                     s.conn.handle_timeout(now);
                 }
                 self.settle_conn(node, ch);
+            }
+            NextEv::DeadTimer(node, i) => {
+                let now = self.now();
+                let tt = self.t;
+                let (ch, slot) = &mut self.nodes[node].dead[i];
+                let ch = *ch;
+                slot.conn.handle_timeout(now);
+                let mut out = vec![];
+                let mut drained_again = 0;
+                while let Some(ev) = slot.conn.poll_endpoint_events() {
+                    if ev.is_drained() {
+                        slot.drained_events += 1;
+                        drained_again += 1;
+                    }
+                    out.push("endpoint event after drained".to_string());
+                }
+                let mut buf = Vec::new();
+                let mut guard = 0;
+                while let Some(t) = slot.conn.poll_transmit(now, 10, &mut buf) {
+                    out.push(format!("transmit of {} bytes after drained", t.size));
+                    buf.clear();
+                    guard += 1;
+                    if guard > 50 {
+                        break;
+                    }
+                }
+                while let Some(ev) = slot.conn.poll() {
+                    out.push(format!("event {ev:?} after drained"));
+                }
+                for _ in 0..drained_again {
+                    self.recs.push(Rec::Drained { t: tt, node, ch });
+                }
+                self.post_drain_output.extend(out);
             }
         }
         true
@@ -889,6 +937,8 @@ impl<A: App> World<A> {
 pub enum NextEv {
     Net(usize),
     Timer(usize, ConnectionHandle),
+    /// Timer of a connection that already drained and was retired (only with `linger_dead`)
+    DeadTimer(usize, usize),
 }
 
 #[derive(Debug, Clone, Copy, PartialEq, Eq)]
